@@ -394,7 +394,10 @@ let rec r_ty x : M.sem_ty =
               match list_of a with
               | [ Atom "a"; Str an; i; t ] -> ((cstr an, n_of_atom i), r_ty t)
               | _ -> raise (Bad "attr (output)"))
-            attrs )
+            (* the markers `(methods)` / `(keymismatch)` (a struct type carrying something the
+               model's types cannot carry) are left to the correspondence; the monitors judge
+               the rest of the output *)
+            (List.filter (fun a -> match list_of a with [ Atom ("methods" | "keymismatch") ] -> false | _ -> true) attrs) )
   | [ Atom "arr"; t; n ] -> M.SArray (r_ty t, n_of_atom n)
   | _ -> raise (Bad "type (output)")
 
